@@ -7,6 +7,9 @@
     results are a parameter (`Cfg.res`) and the event `finish id` only makes `res id` available.
     `join` of an unfinished handle is the explicit outcome `blocks`.
 
+    `clear` is what a clear-screen does (`ESC[2J`, form feed): the layer's sixels are wiped and the queued handles
+    dropped, so a decode that was in flight can never show up on the cleared screen.
+
     Not modelled: the OS scheduler and the memory ordering of `JoinHandle::is_finished` (the harness hook
     serialises real thread completions into this event alphabet); `i32` overflow of pixel coordinates. -/
 namespace IcyVerif.SixelQueue
@@ -108,12 +111,16 @@ inductive Ev
   | arrive (id : Nat)    -- `execute_dcs`: spawn + `push_back`
   | finish (id : Nat)    -- the decode thread of `id` returned
   | poll
+  | clear                -- `Buffer::clear_screen` / `Caret::ff`: `layers[0].clear()` + `stop_sixel_threads()`
   deriving DecidableEq, Repr
 
 def step (cfg : Cfg) (s : St) : Ev → St
   | .arrive id => { s with queue := s.queue ++ [(id, none)] }
   | .finish id => { s with queue := s.queue.map fun e => if e.1 = id then (e.1, some (cfg.res id)) else e }
   | .poll => (poll cfg s).1
+  -- the screen is wiped and the queued handles are dropped (their threads run on, nobody reads the results);
+  -- the ghost log restarts: it lists what was pushed since the last clear
+  | .clear => { queue := [], layer := [], log := [] }
 
 def run (cfg : Cfg) (evs : List Ev) : St := evs.foldl (step cfg) {}
 
@@ -123,11 +130,13 @@ def runObs (cfg : Cfg) : St → List Ev → List (Ret × List Img)
   | s, .poll :: evs => let r := poll cfg s; (r.2, r.1.layer) :: runObs cfg r.1 evs
   | s, e :: evs => runObs cfg (step cfg s e) evs
 
-/-- ids in arrival order -/
-def arrivals : List Ev → List Nat
-  | [] => []
-  | .arrive id :: evs => id :: arrivals evs
-  | _ :: evs => arrivals evs
+/-- ids in arrival order, since the last clear -/
+def arrStep (arr : List Nat) : Ev → List Nat
+  | .arrive id => arr ++ [id]
+  | .clear => []
+  | _ => arr
+
+def arrivals (evs : List Ev) : List Nat := evs.foldl arrStep []
 
 /-- the images among `ids` whose decode succeeded, in that order -/
 def okImgs (cfg : Cfg) : List Nat → List Img
